@@ -922,7 +922,7 @@ pub fn run(args: &Args) {
             structured: true,
         };
         let mut r = Runner::new(&mut rep, &ctx);
-        r.run(&case, Plan { load: !miri, ..full_plan });
+        r.run(&case, Plan { load: !miri, child: !miri, ..full_plan });
         ctx.cleanup();
         rep.finish();
         return;
@@ -985,7 +985,7 @@ pub fn run(args: &Args) {
     for s in &infos {
         if mine(&mut idx) {
             let case = Case { bytes: s.bytes.clone(), class: "seed".into(), detail: String::new(), seed_name: s.name, gen_: Gen::Bytes, structured: true };
-            runner.run(&case, Plan { load: !miri, ..full_plan });
+            runner.run(&case, Plan { load: !miri, child: !miri, ..full_plan });
             done += 1;
         }
     }
